@@ -1049,6 +1049,9 @@ func c14Run(c *Ctx) {
 			p.Items = append(p.Items, strs[perm[j]])
 			p.Bad = append(p.Bad, false)
 		}
+		if n >= 2 && p.Source != "cont" && r.Intn(8) == 0 {
+			p.Items[n-1] = p.Items[0] // an item may occur twice (literal items: one value referenced twice)
+		}
 		if p.nullable() && n > 0 && r.Intn(2) == 0 {
 			// null entries: YAML nulls in the list, never-written slots of a sparse list, a null leaf
 			p.Null = make([]bool, n)
